@@ -10,7 +10,7 @@ from ..report import Ob, PROVED, REFUTED, UNDECIDED, func_where, ASSUMPTIONS, Fa
 from ..model import norm_text, AnalysisError
 from . import common
 from .decode import DecodeUnits
-from .tools import io_summaries, truthy
+from .tools import io_summaries, truthy, records_flow
 
 
 def ctor_of(it, name):
@@ -44,7 +44,11 @@ def check(prog, res, tier):
             inf = SymV('in_format', 'str', choices=('vbs', '1014'))
             outf = SymV('out_format', 'str', choices=('vbs', '1014'))
             it.user.update(fin=fin, fout=fout, ie=ie, oe=oe, inf=inf, outf=outf)
-            return it.call_function(fi, [fin], {'out_file': fout, 'in_encoding': ie, 'out_encoding': oe, 'in_format': inf, 'out_format': outf})
+            # the command line hands over every option of its parser: the ones the function does not name land in **_
+            extra = {k: v for k, v in (('debug', SymV('debug', 'bool')), ('no1014blocking', SymV('no1014blocking', 'bool')),
+                                       ('in_filename', it.sym_str('in_filename', lo=1)), ('out_filename', it.sym_str('out_filename', lo=1)))}
+            return it.call_function(fi, [fin], {'out_file': fout, 'in_encoding': ie, 'out_encoding': oe, 'in_format': inf, 'out_format': outf,
+                                                **extra})
         runs = Runs(prog, entry, summaries=summ_e, res=res)
 
         def chk(p, mode):
@@ -75,8 +79,10 @@ def check(prog, res, tier):
             if wb.get('iso_config') is not None and not (isinstance(wb.get('iso_config'), ConstV) and wb['iso_config'].value is None):
                 pass
             wm = u.get('write_many', [])
-            if not (len(wm) == 1 and wm[0][0] is wo and wm[0][1] is ro):
+            if not (len(wm) == 1 and wm[0][0] is wo):
                 fails.append(definite('the records of the reader are not all handed to the writer (write_many(reader))'))
+            else:
+                fails += records_flow(p, wm[0][1], ro)
             if wo not in u.get('closed', []):
                 fails.append(definite('the writer is not finalised'))
             return fails
@@ -146,8 +152,10 @@ def check(prog, res, tier):
                 if not (isinstance(got, ConstV) and got.value is (not nb)):
                     fails.append(definite(f'{side}: no1014blocking={nb} gives blocked={got!r}'))
             wm = u.get('write_many', [])
-            if not (len(wm) == 1 and wm[0][0] is wo and wm[0][1] is ro):
+            if not (len(wm) == 1 and wm[0][0] is wo):
                 fails.append(definite('the records of the reader are not all handed to the writer'))
+            else:
+                fails += records_flow(p, wm[0][1], ro)
             if wo not in u.get('closed', []):
                 fails.append(definite('the writer is not finalised'))
             return fails
